@@ -37,6 +37,25 @@ CHECKS = {
         ref='§5 C08', engine='E1-detsched+lean'),
 }
 
+CHECKS['C06'] = dict(
+    technique='Lean 4 proof (inductive invariants over an LTS model of the server ledger: mutual exclusion, capacity, id uniqueness, conservation) + schedule-controlled trace refinement against the real Server',
+    text='C06_bound (ledger size <= capacity in every reachable state, any number of callers, any interleaving with the '
+         'gather/notifier threads, time-outs at any moment), C06_reject_clean, C06_backpressure_never_waits, '
+         'C06_entries_in_flight + C06_slots_returned (no response dropped; backlog zero at rest). Tie: real Server under '
+         'the deterministic scheduler, public backlog sampled at every scheduling step, small cases replayed through the '
+         'Lean model; monitors: overshoot, slot leak, waited longer than the timeout (timed-wait accounting).',
+    note=E1 + 'time is not modelled in Lean (wait bound evaluated on the real code only); AsyncServer not driven here.',
+    ref='§5 C06', engine='E1-detsched+lean')
+CHECKS['C07'] = dict(
+    technique='Lean 4 proof (invariants of the ledger LTS with deadline expiry enabled at every step) + schedule-controlled trace refinement with early timer firing',
+    text='C07_gather_alive (the gather thread never dies, for every position of the cancellation relative to its '
+         'check/set steps), C07_outcome_final, C07_cancelled_stays (late result discarded), '
+         'C07_slot_of_abandoned_returned; the unguarded model has a kernel-checked witness of the death (F5). Tie: '
+         'deadlines are virtual and fired early at random points; monitors: gather thread dead, follow-up request '
+         'with unbounded deadline unanswered, exit not returning, leaked threads.',
+    note=E1 + 'shutdown itself (C07 "still shuts down normally") is exercised by the scenario\'s __exit__ and proved in C11\'s model.',
+    ref='§5 C07', engine='E1-detsched+lean')
+
 NOT_YET = 'check not built yet in this round (model and tie planned in DESIGN.md §5); not claimed'
 
 
